@@ -222,34 +222,38 @@ class Interp:
                 raise AnalysisError(f"guard language: cannot index {text!r}: {exc}") from exc
         if isinstance(node, ast.Call):
             return self.call(node)
-        if isinstance(node, (ast.SetComp, ast.DictComp)) and len(node.generators) == 1:
-            gen = node.generators[0]
-            seq = self.ev(gen.iter)
-            if isinstance(seq, Unknown):
-                return Unknown("comprehension over " + seq.why)
-            out = set() if isinstance(node, ast.SetComp) else {}
+        if isinstance(node, (ast.SetComp, ast.DictComp, ast.ListComp, ast.GeneratorExp)) and not any(g.is_async for g in node.generators):
+            out = set() if isinstance(node, ast.SetComp) else {} if isinstance(node, ast.DictComp) else []
             saved = dict(self.env)
-            for item in seq:
-                self.store(gen.target, item, node)
-                if all(self.truth(self.ev(c), c) for c in gen.ifs):
+            unknown = []
+
+            def loop(k):
+                if k == len(node.generators):
                     if isinstance(node, ast.SetComp):
                         out.add(self.ev(node.elt))
-                    else:
+                    elif isinstance(node, ast.DictComp):
                         out[self.ev(node.key)] = self.ev(node.value)
-            self.env = saved
-            return out
-        if isinstance(node, (ast.ListComp, ast.GeneratorExp)) and len(node.generators) == 1:
-            gen = node.generators[0]
-            seq = self.ev(gen.iter)
-            if isinstance(seq, Unknown):
-                return Unknown("comprehension over " + seq.why)
-            out = []
-            saved = dict(self.env)
-            for item in seq:
-                self.store(gen.target, item, node)
-                if all(self.truth(self.ev(c), c) for c in gen.ifs):
-                    out.append(self.ev(node.elt))
-            self.env = saved
+                    else:
+                        out.append(self.ev(node.elt))
+                    return
+                gen = node.generators[k]
+                seq = self.ev(gen.iter)
+                if isinstance(seq, Unknown):
+                    unknown.append(seq)
+                    return
+                for item in seq:
+                    self.store(gen.target, item, node)
+                    if all(self.truth(self.ev(c), c) for c in gen.ifs):
+                        loop(k + 1)
+                    if unknown:
+                        return
+
+            try:
+                loop(0)
+            finally:
+                self.env = saved
+            if unknown:
+                return Unknown("comprehension over " + unknown[0].why)
             return out
         raise AnalysisError(f"guard language: unsupported expression {text!r} ({type(node).__name__})")
 
